@@ -231,9 +231,19 @@ func msHook(o *otto.Otto, kind otto.VerifStepKind, node interface{}) {
 	if msOverrun() {
 		panic(harnessAbort{"task step cap"})
 	}
-	if t := curMTask(); t != nil && t.abortAt > 0 {
+	if t := curMTask(); t != nil && (t.abortAt > 0 || len(t.irqAt) > 0) {
 		t.progSteps++
-		if t.progSteps >= t.abortAt {
+		for _, k := range t.irqAt {
+			if k == t.progSteps && t.vm.Interrupt != nil {
+				// whoever polls this channel runs the function; with independent
+				// runtimes that can only be the runtime it was sent to
+				select {
+				case t.vm.Interrupt <- func() { curMTask().rec("IRQ") }:
+				default:
+				}
+			}
+		}
+		if t.abortAt > 0 && t.progSteps >= t.abortAt {
 			panic(harnessAbort{"abort"})
 		}
 	}
@@ -247,6 +257,7 @@ type MProg struct {
 	Route  string `json:"route"`            // text | script | program | reader
 	Shared int    `json:"shared,omitempty"` // index into Scripts for script/program routes
 	Abort  int    `json:"abort,omitempty"`  // >0: the program is killed (panic out of Run) at its Abort-th evaluation step
+	IrqAt  []int  `json:"irq_at,omitempty"` // at these evaluation steps of the program a journaling function is sent on the runtime's own Interrupt channel
 }
 
 type MTask struct {
@@ -267,11 +278,36 @@ type MultiCase struct {
 	Scripts  []string `json:"scripts"`
 	Tasks    []MTask  `json:"tasks"`
 	Procs    int      `json:"gomaxprocs"`
+	TplChan  bool     `json:"template_chan,omitempty"` // the template has an Interrupt channel when it is copied
 	// Batch, when present, records the process history in which the violation
 	// was observed (race detection can depend on what the process executed
 	// before); replay falls back to re-running that batch prefix.
 	Batch *BatchCtx `json:"batch,omitempty"`
 }
+
+// heap every runtime starts with (template and fresh alike): objects that
+// exist before any Copy(), for the tasks to delete from, enumerate and call
+const multiPreludeJS = `
+var T0={a:1,b:2,c:3,d:4,e:5}, T1=[1,2,3,4,5], T2={k1:{v:1},k2:{v:2},k3:{v:3}};
+var TB=function(a,b,c,d){return [a,b,c,d].join()}.bind(null,1,2);
+var TB5=function(){return Array.prototype.join.call(arguments)}.bind(null,1,2,3,4);
+var TB6=function(){return Array.prototype.join.call(arguments)}.bind(null,1,2,3,4,5);
+var TG={get x(){return this._x},set x(v){this._x=v},_x:1};
+function TF(a,b){delete arguments[0];arguments[1]='w';return String(a)+b}
+var TR=/t(\d)/g, TD=new Date(86400000), TE=new RangeError('tpl');
+var TC=(function(){var n=0;return function(){return ++n}})();
+function __spin(){}
+`
+
+// bridged is a Go value bridged into fresh runtimes (one instance each)
+type bridged struct {
+	Name  string
+	Count int
+	Tags  []string
+	M     map[string]int
+}
+
+func (b *bridged) Sum(x, y int) int { return x + y + b.Count }
 
 // per-task harness state; touched only by the goroutine running the task
 // (and by the coordinator before the fork / after the join).
@@ -282,6 +318,7 @@ type mtask struct {
 	nextID int
 	rnd    Rng
 	abortAt, progSteps int
+	irqAt              []int
 }
 
 // taskTable maps the scheduler's current index to harness state. It is
@@ -377,7 +414,10 @@ func newTemplate(c *MultiCase) *otto.Otto {
 	setRandom(vm, c.Seed^0x7e)
 	t := &mtask{id: -1}
 	soloTask = t
-	if _, err := vm.Run(preludeJS + "function __spin(){}\n"); err != nil {
+	if c.TplChan {
+		vm.Interrupt = make(chan func(), 1)
+	}
+	if _, err := vm.Run(preludeJS + multiPreludeJS); err != nil {
 		fatalf("harness: prelude: %v", err)
 	}
 	if c.Template != "" {
@@ -404,10 +444,13 @@ func makeRuntime(c *MultiCase, tk *MTask, id int, tpl *otto.Otto) *otto.Otto {
 		vm.SetStackDepthLimit(48)
 		installMulti(vm)
 		soloTask = &mtask{id: -1}
-		if _, err := vm.Run(preludeJS + "function __spin(){}\n"); err != nil {
+		if _, err := vm.Run(preludeJS + multiPreludeJS); err != nil {
 			fatalf("harness: prelude: %v", err)
 		}
 		soloTask = nil
+		if err := vm.Set("gs", &bridged{Name: "g", Count: id, Tags: []string{"x", "y"}, M: map[string]int{"k": id}}); err != nil {
+			fatalf("harness: Set(gs): %v", err)
+		}
 	case "copy", "livecopy":
 		vm = tpl.Copy()
 	case "copycopy":
@@ -422,11 +465,20 @@ func makeRuntime(c *MultiCase, tk *MTask, id int, tpl *otto.Otto) *otto.Otto {
 	return vm
 }
 
+// copies made from a template that has a channel keep whatever Copy() gave them
+
 func runProg(t *mtask, p *MProg, shared []sharedSrc, stepsActive bool) {
 	var v otto.Value
 	var err error
-	t.abortAt, t.progSteps = p.Abort, 0
-	defer func() { t.abortAt = 0 }()
+	t.abortAt, t.progSteps, t.irqAt = p.Abort, 0, p.IrqAt
+	defer func() {
+		t.abortAt, t.irqAt = 0, nil
+		if t.vm.Interrupt != nil {
+			for len(t.vm.Interrupt) > 0 { // sent but the program ended first
+				<-t.vm.Interrupt
+			}
+		}
+	}()
 	func() {
 		defer func() {
 			if x := recover(); x != nil {
@@ -765,7 +817,11 @@ func execMulti(c *MultiCase, st *Stats) *Violation {
 	}
 	ev("multi", ms.hash, ms.steps, ms.switches)
 	if ms.overrun {
-		return viol("C20", "task_runaway", "a task exceeded the step cap only when interleaved")
+		// a generated program that is simply long: nothing to compare (programs
+		// are fuel-bounded, the cap only protects the batch budget)
+		st.Invalid++
+		st.Probe("case_discarded_step_cap")
+		return nil
 	}
 
 	// ---- solo baselines: same recipes, fresh instances, one at a time
@@ -920,6 +976,17 @@ var jsFragments = []string{
 	"try{(function r(){r()})()}catch(e){rec(e.name)}",
 	"rec([1,2,3].map(function(x){return x*2}).filter(function(x){return x>2}).reduce(function(a,b){return a+b},0))",
 	"rec(Object.getOwnPropertyNames(Object.getPrototypeOf(function(){})).sort().join())",
+	"delete T0.b;rec(Object.keys(T0).join()+JSON.stringify(T0))",
+	"T0.z=1;delete T0.a;var tk=[];for(var tq in T0)tk.push(tq);rec(tk.join())",
+	"delete T2.k1;rec(Object.keys(T2).join());T2.k9={v:9};rec(JSON.stringify(T2))",
+	"rec(TB(3,4)+'|'+TB5(5,6)+'|'+TB6(7)+'|'+TB(8)+TB5(9,10,11))",
+	"T1.splice(1,1);T1.push(T1.length);rec(T1.join())",
+	"TG.x=TG.x+1;rec(TG.x)",
+	"rec(TF(1,2)+TF('a','b'))",
+	"rec(TC()+','+TC())",
+	"TR.lastIndex=0;rec(TR.exec('t1t2')+':'+TR.lastIndex);TD.setTime(TD.getTime()+1);rec(TD.getTime());TE.message+='!';rec(String(TE))",
+	"if(typeof gs!=='undefined'){rec(gs.Name+gs.Count+gs.Sum(2,3)+gs.Tags.length+gs.M.k);gs.Count=gs.Count+1;rec(gs.Count)}",
+	"if(typeof gs!=='undefined'){gs.Tags[0]='z';gs.M.q=5;rec(gs.Tags.join()+Object.keys(gs.M).sort().join()+JSON.stringify(gs))}",
 }
 
 func genMultiProg(t *rapid.T, nScripts int) MProg {
@@ -953,6 +1020,7 @@ func (multiEngine) Gen(t *rapid.T, tier string) interface{} {
 	c.PNum = 1
 	c.PDen = []int{1, 2, 4, 16, 64, 256}[rapid.IntRange(0, 5).Draw(t, "pden")]
 	c.Procs = []int{1, 1, 2, 4}[rapid.IntRange(0, 3).Draw(t, "procs")]
+	c.TplChan = rapid.IntRange(0, 3).Draw(t, "tplchan") == 3
 	tp := genMultiProg(t, 0)
 	c.Template = tp.Src
 	ns := rapid.IntRange(1, 3).Draw(t, "nscripts")
@@ -983,6 +1051,11 @@ func (multiEngine) Gen(t *rapid.T, tier string) interface{} {
 		for j := range tk.Progs {
 			if rapid.IntRange(0, 5).Draw(t, "abort?") == 5 {
 				tk.Progs[j].Abort = rapid.IntRange(1, 300).Draw(t, "abortstep")
+			}
+			if rapid.IntRange(0, 3).Draw(t, "irq?") == 3 {
+				for n := rapid.IntRange(1, 3).Draw(t, "nirq"); n > 0; n-- {
+					tk.Progs[j].IrqAt = append(tk.Progs[j].IrqAt, rapid.IntRange(1, 200).Draw(t, "irqstep"))
+				}
 			}
 		}
 		if tk.Origin != "fresh" && rapid.IntRange(0, 3).Draw(t, "livecopy") == 3 {
